@@ -884,9 +884,11 @@ def omp_loop_head(tu, f, li):
     return False
 
 
-def check_impl(ctx, tu, f, cfgname, chains, depth=0):
+def check_impl(ctx, tu, f, cfgname, chains, depth=0, signs_in=None):
+    """signs_in: signs of the count that can reach this function (a dispatch helper is analysed under the guard its only
+    caller establishes; the entry point itself is analysed for every count of its type)"""
     R1, R2 = 'R-C01-1', 'R-C01-2'
-    memo_key = (id(tu), f['id'], cfgname)
+    memo_key = (id(tu), f['id'], cfgname, ''.join(sorted(signs_in)) if signs_in is not None else None)
     if memo_key in _IMPL_DONE:
         return _IMPL_DONE[memo_key]
     _IMPL_DONE[memo_key] = {'helper'}
@@ -910,6 +912,7 @@ def check_impl(ctx, tu, f, cfgname, chains, depth=0):
         ctx.undecided(R1, inst, ro, loc)
         return
     defs = local_defs(tu, [f])
+    helper_calls = []
 
     def subst(p_, n_):
         if p_ in defs and irange(tu.sd(n_).get('ct')) is not None:
@@ -1031,9 +1034,7 @@ def check_impl(ctx, tu, f, cfgname, chains, depth=0):
                     kinds.add('helper')
                     events[n['id']] = 'helper'
                     recognised.add(n['id'])
-                    sub = check_impl(ctx, tu, cf, cfgname, chains, depth + 1)
-                    if not sub:
-                        und.append('the dispatch helper `%s` is not decided' % cf['q'].split('::')[-1])
+                    helper_calls.append((n, cf))
                     count_args.append(('helper', through_defs(args[0]), clean_type(cf['params'][0]['ct']), n))
                 elif (ll - Lin.atom(('p', ppath))).is_const():
                     recognised.add(n['id'])
@@ -1096,9 +1097,15 @@ def check_impl(ctx, tu, f, cfgname, chains, depth=0):
     if stray:
         und.append('functor parameter is used outside the recognised dispatch at %s' % ', '.join(stray))
     # ---- every path dispatches exactly once
-    exits, seen = count_paths(tu, g, events, ppath, signs_of_type(nct))
+    sg0 = signs_of_type(nct) if signs_in is None else ''.join(s_ for s_ in signs_of_type(nct) if s_ in signs_in)
+    exits, seen = count_paths(tu, g, events, ppath, sg0 or signs_of_type(nct))
     for k, t in once_verdict(exits, und):
         problems.append((k, t, None))
+    for n_, cf_ in helper_calls:
+        # the helper only ever sees the counts that pass the guards in front of this call
+        sub = check_impl(ctx, tu, cf_, cfgname, chains, depth + 1, signs_in=set(seen.get(n_['id'], sg0)))
+        if not sub:
+            und.append('the dispatch helper `%s` is not decided' % cf_['q'].split('::')[-1])
     for u in sorted(set(und)):
         ctx.undecided(R1, inst, u, loc)
     if not und:
@@ -4455,6 +4462,11 @@ def via_local(tu, e, defs):
     return ''
 
 
+def arg_path(tu, e):
+    """access path of an argument expression, also through the copy construction of a class-type argument"""
+    return access_path(tu, e) or struct_source(tu, e)
+
+
 def check_foreach(ctx, tu, cfgname):
     R = 'R-C01-5'
     n_it = n_ct = 0
@@ -4508,6 +4520,23 @@ def check_foreach(ctx, tu, cfgname):
         itype = clean_type(pb['ct'])
         inst = '[%s] parallel_foreach<%s>' % (cfgname, itype)
         calls = [n for b, i, n in g.stmts() if n.get('kind') in CALLS and tu.sd(n).get('q') == PFOR]
+        amap = {}           # parameter of a dispatch helper -> the caller's argument expression
+        holder, outer_call = f, None
+        if not calls:
+            # the loop may live in a helper of the analysed tree that is handed the iterator and the functor
+            hs = []
+            for b, i, n in g.stmts():
+                if n.get('kind') not in CALLS:
+                    continue
+                cf_ = inlinable(tu, n)
+                s_, o_, a_ = call_args(tu, n)
+                if cf_ is not None and not cf_['dep'] and len(cf_.get('params', [])) == len(a_) and \
+                        any(arg_path(tu, x) == bpath for x in a_) and any(obj_path(tu, x) == fpath for x in a_):
+                    hs.append((n, cf_, a_))
+            if len(hs) == 1:
+                outer_call, holder, a_ = hs[0]
+                amap = {param_path(p_): x for p_, x in zip(holder['params'], a_)}
+                calls = [n for b, i, n in tu.cfg(holder).stmts() if n.get('kind') in CALLS and tu.sd(n).get('q') == PFOR]
         if len(calls) != 1:
             ctx.undecided(R, inst, '%d calls of parallel_for (expected one)' % len(calls), loc)
             continue
@@ -4517,12 +4546,42 @@ def check_foreach(ctx, tu, cfgname):
         if lamf is None or tu.cfg(lamf) is None or len(lamf['params']) != 1:
             ctx.undecided(R, inst, 'second argument of parallel_for is not a lambda / function object taking the index', loc)
             continue
-        rp = lambda p_: caps.get(p_, p_) if p_ is not None else None
-        defs = local_defs(tu, [f, lamf])
+
+        def rp(p_):
+            """a path inside the callable / the helper, expressed in terms of parallel_foreach's own parameters"""
+            if p_ is None:
+                return None
+            p_ = caps.get(p_, p_)
+            hops_ = 0
+            while p_ in amap and hops_ < 4:
+                q_ = obj_path(tu, amap[p_]) or arg_path(tu, amap[p_])
+                if q_ is None:
+                    break
+                p_ = q_
+                hops_ += 1
+            return p_
+
+        def through(e_):
+            """follow helper parameters to the caller's argument expression"""
+            hops_ = 0
+            while hops_ < 4:
+                q_ = access_path(tu, e_)
+                if q_ in amap:
+                    e_ = amap[q_]
+                    hops_ += 1
+                else:
+                    break
+            return e_
+        defs = local_defs(tu, [f, lamf] + ([holder] if holder is not f else []))
         und, bad = [], []
+        if holder is not f:
+            ex_h, _ = count_paths(tu, tu.cfg(holder), {call['id']: 1}, None, 'P')
+            if once_verdict(ex_h):
+                bad.append(('once', 'the dispatch helper `%s` does not call parallel_for exactly once on every path'
+                            % holder['q'].split('::')[-1]))
         # parallel_for must be reached exactly once unless the range is known to be empty: guards on the element count
         # (a local holding distance(begin, end)) or on begin == end are understood; begin <= end is the caller's precondition
-        cpath = access_path(tu, args[0])
+        cpath = access_path(tu, through(args[0]))
         if cpath is None or cpath not in defs:
             cpath = None
 
@@ -4542,11 +4601,13 @@ def check_foreach(ctx, tu, cfgname):
                 return None
             eq = (op == '==') == pos
             return {'N': {True, False}, 'Z': {eq}, 'P': {not eq}}
-        exits, _ = count_paths(tu, g, {call['id']: 1}, cpath or ('v', None, '<range>'), 'ZP', range_truth)
+        exits, _ = count_paths(tu, g, {(outer_call or call)['id']: 1}, cpath or ('v', None, '<range>'), 'ZP', range_truth)
         for k, t in once_verdict(exits, und):
             bad.append(('once', 'parallel_for is not called exactly once on every path with a non-empty range'))
 
         def subst(p, n_):
+            if p in amap:
+                return lin(tu, amap[p], env)
             if p in defs and irange(tu.sd(n_).get('ct')) is not None:
                 return lin(tu, defs[p], env)
             return None
@@ -4557,8 +4618,8 @@ def check_foreach(ctx, tu, cfgname):
         rev = Lin.atom(('call', 'std::distance', (Ep, Bp)))
         if CNT == want or CNT == Ep - Bp:
             # conversion difference_type -> count type; begin <= end is the caller's precondition
-            cnt_def = args[0]
-            ap = access_path(tu, args[0])
+            cnt_def = through(args[0])
+            ap = access_path(tu, cnt_def)
             if ap in defs:
                 cnt_def = defs[ap]
             lf, ch = cast_chain(tu, cnt_def)
